@@ -98,13 +98,26 @@ fn observe_effects(e: Effects, model: &Set) -> Result<(), String> {
         return Err(format!("iter() yields {:?} for the set {name}, expected {:?}", items, exp_items));
     }
     // debug form: names exactly the members (punctuation is not prescribed)
-    let dbg = format!("{e:?}");
-    let mut named: Vec<&str> = dbg.split(|c: char| !(c.is_ascii_alphanumeric() || c == '_')).filter(|t| !t.is_empty() && *t != "Effects").collect();
-    named.sort();
+    // ... whatever width, fill, alignment or precision the caller's format spec carries (a derived Debug of a struct
+    // holding an Effects hands its spec down); fills are punctuation, so padding cannot add or hide a name
+    let forms: [(&str, String); 8] = [
+        ("{:?}", format!("{e:?}")),
+        ("{:#?}", format!("{e:#?}")),
+        ("{:.2?}", format!("{e:.2?}")),
+        ("{:14?}", format!("{e:14?}")),
+        ("{:.0?}", format!("{e:.0?}")),
+        ("{:*>9.3?}", format!("{e:*>9.3?}")),
+        ("{:-^40?}", format!("{e:-^40?}")),
+        ("{:#<3.1?}", format!("{e:#<3.1?}")),
+    ];
     let mut exp_names: Vec<&str> = model.iter().map(|&i| FX[i as usize].1).collect();
     exp_names.sort();
-    if named != exp_names {
-        return Err(format!("Debug text {dbg:?} names {named:?} for the set {name}"));
+    for (spec, dbg) in &forms {
+        let mut named: Vec<&str> = dbg.split(|c: char| !(c.is_ascii_alphanumeric() || c == '_')).filter(|t| !t.is_empty() && *t != "Effects").collect();
+        named.sort();
+        if named != exp_names {
+            return Err(format!("Debug text {dbg:?} (format spec {spec}) names {named:?} for the set {name}"));
+        }
     }
     Ok(())
 }
